@@ -3,7 +3,9 @@ Model.Sched — src/aioswitcher/schedule/tools.py, function by function.  Weekda
 the generated `Gen.days` table (definition order = iteration order of the `Days` enum).
 -/
 import Switcher.Model.Py
+import Switcher.Model.Tools
 import Switcher.Gen.Tables
+import Switcher.Gen.Guards
 namespace Model
 open Spec
 
@@ -36,7 +38,7 @@ def weekdaysToHex : DaysArg → Py (List Char)
 
 /-- `bit_summary_to_days`: the day indices in iteration order of `Days` -/
 def bitSummaryToDays (n : Int) : Py (List Nat) :=
-  if 1 < n ∧ n < 255 then
+  if inChain "bit_summary_to_days" n then            -- `1 < sum_weekdays_bit < 255` (bounds regenerated from the source)
     pure ((List.range Gen.days.length).filter (fun i => dayHexRep i &&& n.toNat != 0))
   else throw .valueError
 
@@ -49,5 +51,35 @@ def calcDuration (startTime endTime : List Char) : Py (List Char) :=
     let b' := if b < a then b + 1440 else b          -- `end_datetime += timedelta(days=1)`
     pure (strTimedelta ((b' - a) * 60))
   | _, _ => throw .valueError
+
+/-- `str.split(":")` -/
+def splitColon : List Char → List (List Char)
+  | [] => [[]]
+  | c :: cs =>
+    match splitColon cs with
+    | [] => [[c]]                      -- unreachable
+    | p :: ps => if c == ':' then [] :: p :: ps else (c :: p) :: ps
+
+/-- ASCII characters matched by `\s` in a `str` pattern -/
+def isPySpace (c : Char) : Bool := (9 ≤ c.toNat && c.toNat ≤ 13) || (28 ≤ c.toNat && c.toNat ≤ 32)
+
+/-- the clock text `time_to_hexadecimal_timestamp` accepts: `split(":")` must give at least two parts
+    (else IndexError); then `strptime(date + " " + p0 + ":" + p1, "%d/%m/%Y %H:%M")` must match: the blank of the
+    format absorbs leading white space of p0, parts after the second are ignored -/
+def parseClock (s : List Char) : Py (Nat × Nat) :=
+  match splitColon s with
+  | p0 :: p1 :: _ =>
+    match parseHM (p0.dropWhile isPySpace ++ [':'] ++ p1) with
+    | some hm => pure hm
+    | none => throw .valueError
+  | _ => throw .indexError
+
+/-- `time_to_hexadecimal_timestamp` on a host whose zone is a fixed UTC offset of `off` seconds -/
+def timeToHexFixed (off now : Int) (s : List Char) : Py (List Char) := do
+  let (h, m) ← parseClock s
+  let day := (now + off) / 86400
+  let t := day * 86400 + 3600 * h + 60 * m - off
+  let b ← packLE32 t
+  pure (hexlify b)
 
 end Model
